@@ -90,6 +90,8 @@ func c12Alphabet() []c12Op {
 		a = append(a, c12Op{Kind: "write", N: n})
 	}
 	a = append(a, c12Op{Kind: "readat", N: 3, Off: 1}, c12Op{Kind: "readat", N: 5, Off: 3})
+	// calls that transfer nothing: they move nothing, and on a closed File they still fail
+	a = append(a, c12Op{Kind: "write", N: 0}, c12Op{Kind: "writeat", N: 0, Off: 2}, c12Op{Kind: "read", N: 0}, c12Op{Kind: "readat", N: 0, Off: 2})
 	a = append(a, c12Op{Kind: "writeat", N: 3, Off: 1}, c12Op{Kind: "writeat", N: 5, Off: 4})
 	for _, wh := range []int{0, 1, 2, 3} {
 		for _, off := range []int64{-L - 1, -1, 0, 1, L + 1} {
